@@ -439,6 +439,11 @@ func TestC10_Inapplicable(t *testing.T) {
 		why := ""
 		for try := 0; try < 12 && bad == nil; try++ {
 			op := genOp6902(t, work, true)
+			if try == 0 && rapid.IntRange(0, 7).Draw(t, "ontoItself") == 0 {
+				// moving / copying a location that does not exist onto itself is not a no-op: the source must exist
+				loc := rapid.SampledFrom([]string{"/missing", "/arr/9", "/o/nothing", "/arr/01", "/name/x"}).Draw(t, "selfLocation")
+				op = map[string]interface{}{"op": rapid.SampledFrom([]string{"move", "copy"}).Draw(t, "selfOp"), "from": loc, "path": loc}
+			}
 			if try == 0 && rapid.IntRange(0, 5).Draw(t, "testMissingForNull") == 0 {
 				// a location that does not exist is not a location holding null
 				op = map[string]interface{}{"op": "test", "path": rapid.SampledFrom([]string{"/missing", "/arr/9", "/o/nothing", "/name/x/y"}).Draw(t, "missingPath"), "value": nil}
@@ -498,6 +503,13 @@ func TestC10_Inapplicable(t *testing.T) {
 		}
 		for i, n := 0, rapid.IntRange(0, 2).Draw(t, "patchesAfter"); i < n; i++ {
 			list = append(list, genDedicatedPatch(t, rapid.SampledFrom([]string{"replace", "replace", "add-public-keys", "add-services", "add-also-known-as", "remove-services"}).Draw(t, "after"), doc, false))
+		}
+		// the operation was found inapplicable on the document as it stood; patches in front of it may have changed what it
+		// refers to (a longer alsoKnownAs list copied into an array makes a larger index legal): the reference decides on the
+		// list as a whole
+		if _, rerr := refCompose(doc, list); rerr == nil {
+			st.Exclude("the patches in front made the operation applicable")
+			return
 		}
 		lps, err := libPatches(list)
 		if err != nil {
